@@ -511,6 +511,14 @@ class Interp:
         # method on self, resolved through the real MRO
         if isinstance(f, tuple) and f[0] == "attr" and f[1] == ("var", "self") and self.cls is not None:
             return self.call_method(f[2], f[1], args, kw, st, glob, owner, depth, fsrc=fsrc)
+        # explicit base-class call  Base.method(self, ...)
+        if (isinstance(f, tuple) and f[0] == "attr" and isinstance(f[1], tuple) and f[1][0] == "global" and args
+                and args[0] == ("var", "self") and self.cls is not None):
+            base = glob.get(f[1][1])
+            if isinstance(base, type) and base in self.cls.__mro__:
+                idx = self.cls.__mro__.index(base)
+                prev = self.cls.__mro__[idx - 1] if idx > 0 else None
+                return self.call_method(f[2], args[0], args[1:], kw, st, glob, owner, depth, after=prev, fsrc=fsrc)
         if isinstance(f, tuple) and f[0] == "closure":
             node, env, g2, own2 = self.closures[f[1]]
             return self.inline_fn(node, env, args, kw, st, g2, own2, depth, f[2])
